@@ -9,7 +9,7 @@ Hypothesis Hmode : e_mode E = OsFile.
 
 Definition ov (s s' : state) : Prop := st_overlap s' = st_overlap s.
 
-Lemma ov_touch s n : ov s (touch E s n).
+Lemma ov_touch s : ov s (touch E s).
 Proof. unfold ov, touch. rewrite Hmode. cbn [is_osfile negb andb]. match goal with |- context [if ?c then set_unmod _ else _] => destruct c end; auto. Qed.
 
 Lemma ov_flush_stdout s : ov s (fst (flush_stdout E s)).
@@ -26,7 +26,7 @@ Proof.
 Qed.
 
 Lemma ov_child_eof s cg : ov s (fst (child_eof E s cg)).
-Proof. unfold child_eof. rewrite Hmode. reflexivity. Qed.
+Proof. reflexivity. Qed.
 
 Lemma ov_start_proc s c : ov s (fst (start_proc E s c)).
 Proof. unfold start_proc. cbn [fst]. destruct (c_sink _); reflexivity. Qed.
@@ -138,7 +138,7 @@ Proof.
     + destruct (alookup n (st_outs s)) as [os|]; [|reflexivity].
       pose proof (ov_close_ostream (set_outs s (aremove n (st_outs s))) n os) as H.
       destruct (close_ostream _ _ _ _) as [[s1 code] err]. cbn [fst] in *. unfold ov in *. cbn [st_overlap add_obs].
-      rewrite ov_if_unmod. rewrite ov_if_print_errorf. cbn. rewrite H. reflexivity.
+      rewrite ov_if_print_errorf. cbn. rewrite H. reflexivity.
   - destruct (alookup n (st_outs s)) as [os|]; cbn [fst]; unfold ov; cbn [st_overlap add_obs].
     + apply ov_flush_named.
     + apply ov_flush_stdout.
@@ -197,9 +197,9 @@ Proof.
   destruct e as [| [] | | | |]; try contradiction; apply app_nil_r.
 Qed.
 
-Lemma keep_touch s n : keep s (touch E s n).
+Lemma keep_touch s : keep s (touch E s).
 Proof.
-  unfold touch. destruct (negb (is_osfile (e_mode E)) && any_cmd (st_outs s)); cbn [st_outs set_overlap];
+  unfold touch. destruct (negb (is_osfile (e_mode E)) && any_active (st_outs s)); cbn [st_outs set_overlap];
   match goal with |- context [if ?c then set_unmod _ else _] => destruct c end; apply keep_fields; auto.
 Qed.
 
@@ -210,7 +210,7 @@ Lemma child_out_silent s cg c : fst (child_out E s cg (c_stdout (e_spec E c))) =
 Proof. destruct (Hsilent c) as (-> & _). reflexivity. Qed.
 
 Lemma child_eof_id s cg : fst (child_eof E s cg) = s.
-Proof. unfold child_eof. destruct Hmode as [-> | ->]; auto. Qed.
+Proof. reflexivity. Qed.
 
 Lemma keep_start_proc s c : keep s (fst (start_proc E s c)).
 Proof.
@@ -337,8 +337,8 @@ Qed.
 
 Lemma write_stdout_usink k s ps s' : usink k s -> write_stdout E s ps = (s', true) -> usink k s'.
 Proof.
-  intros Hu. unfold write_stdout. pose proof (usink_keep k _ _ (keep_touch s (length (concat ps))) Hu) as (A & B & C).
-  set (s1 := touch E s (length (concat ps))) in *.
+  intros Hu. unfold write_stdout. pose proof (usink_keep k _ _ (keep_touch s) Hu) as (A & B & C).
+  set (s1 := touch E s) in *.
   destruct Hmode as [Hm | Hm]; rewrite Hm;
     (destruct (write_pieces_direct _ ps) as [k1 ok1] eqn:Ew; intros H; injection H as <- ->;
      cbn [st_sink add_log] in Ew; destruct (write_pieces_direct_ok k ps _ _ Ew A C) as (A1 & B1 & C1);
@@ -379,9 +379,7 @@ Proof.
       eapply usink_keep; [|exact Hu]. assert (He : forall x, (if err then print_errorf E x else x) = x) by (intros; destruct err; auto using print_errorf_id).
       rewrite He. apply (keep_trans _ (set_outs s (aremove n (st_outs s)))); [apply keep_fields; auto|].
       apply (keep_trans _ s1); auto.
-      apply (keep_trans _ (add_log s1 (EvClose n false code))); [apply keep_add_log; exact I|].
-      apply (keep_trans _ (if close_timing E n os s1 then set_unmod (add_log s1 (EvClose n false code)) else add_log s1 (EvClose n false code)));
-        [apply keep_if_unmod|apply keep_fields; auto].
+      apply (keep_trans _ (add_log s1 (EvClose n false code))); [apply keep_add_log; exact I|apply keep_fields; auto].
   - destruct (alookup n (st_outs s)) as [os|]; intros H _; injection H as <- <-; (eapply usink_keep; [|exact Hu]).
     + apply (keep_trans _ (flush_named E s n os)); [apply keep_flush_named|]. apply keep_fields; auto.
     + rewrite print_errorf_id. apply keep_fields; auto.
